@@ -241,3 +241,22 @@ func (p *InprocPeer) Drain() {
 		}
 	}
 }
+
+// DrainNow collects what is queued without letting any (virtual) time pass: it polls with an already-cancelled context.
+// A transport that picks at random between a cancelled context and a queued envelope may need a few polls.
+func (p *InprocPeer) DrainNow() {
+	ctx, cancel := context.WithCancel(context.Background())
+	cancel()
+	misses := 0
+	for misses < 8 {
+		e, err := TReceive(ctx, p.T)
+		if err != nil {
+			misses++
+			continue
+		}
+		misses = 0
+		if m, err := CanonOf(e); err == nil {
+			p.Got = append(p.Got, GotEnv{Env: m})
+		}
+	}
+}
